@@ -380,6 +380,10 @@ impl ClusterHandler for GenCommHandler<'_> {
                 // be it the PASE session, or a CASE session on the fabric being rolled back
                 let own_sess_id = Some(sess.id());
 
+                // Only the context which armed the fail-safe may force it to expire; anybody
+                // else gets `BusyWithOtherAdmin` / `InvalidAuthentication`, as for a re-arm
+                state.failsafe.check_armed_by(sess.get_session_mode())?;
+
                 removed_fabric = state.failsafe.expire(
                     &mut state.fabrics,
                     &mut state.sessions,
